@@ -112,7 +112,7 @@ class Session:
         if depth_first:
             jopts.append("-Dtlc2.tool.queue.IStateQueue=StateDeque")
         cmd = ["java"] + jopts + ["-cp", "/opt/veriftools/tla/tla2tools.jar:/opt/veriftools/tla/CommunityModules-deps.jar",
-                                  "tlc2.TLC", "-workers", str(workers), "-metadir", meta, "-nowarning"]
+                                  "tlc2.TLC", "-workers", str(workers), "-metadir", meta, "-nowarning", "-noGenerateSpecTE"]
         cmd += (extra or []) + ["-config", cfg, module + ".tla"]
         t = time.time()
         try:
@@ -197,53 +197,74 @@ class Session:
         self._metas.append(meta)
         return meta
 
-    def validate(self, meta, module, cfg=None, known=(), timeout=1800, heap=None, shard=60000, extra_files=()):
-        """Trace validation: TLC checks every record the driver observed against the trace spec.
-        Returns None if everything validated; otherwise raises Violation (after the known-findings filter)."""
+    def validate(self, meta, module, cfg=None, known=(), timeout=1800, heap="3g", shard=60000, extra_files=(), par=8):
+        """Trace validation: TLC checks every record the driver observed against the trace spec (records are
+        sharded over several TLC processes). Raises Violation for a record that breaks the spec and is not a
+        listed known finding."""
+        import concurrent.futures
         cfg = cfg or module + ".cfg"
+        jobs = []
         for fn in meta["files"]:
             path = os.path.join(meta["dir"], fn)
             lines = open(path, "rb").read().split(b"\n")
             if lines and lines[-1] == b"":
                 lines.pop()
-            # shard big record files over several TLC runs (each record is independent unless the spec says otherwise)
-            shards = [lines[i:i + shard] for i in range(0, len(lines), shard)] or [[]]
-            for si, part in enumerate(shards):
-                skipped = 0
-                while True:
-                    d = self.spec_dir(extra_files)
-                    with open(os.path.join(d, "records.ndjson"), "wb") as f:
-                        f.write(b"\n".join(part) + (b"\n" if part else b""))
-                    r = self.tlc(module, cfg, d, workers=1, timeout=timeout, heap=heap)
-                    shutil.rmtree(d, ignore_errors=True)
-                    self.states += r.get("distinct", 0)
-                    self.transitions += r.get("generated", 0)
-                    if r["ok"]:
-                        if r.get("distinct", 0) < len(part):
-                            raise Undecided("trace spec %s consumed %d of %d records" % (module, r.get("distinct", 0), len(part)))
-                        break
-                    if not r["violation"] or "l" not in r:
-                        raise Undecided("TLC failed on %s:\n%s" % (module, r["out"][-3000:]))
-                    idx = r["l"] - 1
-                    if idx < 0 or idx >= len(part):
-                        raise Undecided("TLC reported position %d outside the trace" % r["l"])
-                    rec = json.loads(part[idx])
-                    kf = match_known(self.prop, rec, known)
-                    if kf is not None:
-                        line = "KNOWN-FINDING: property=%s %s" % (self.prop, kf["what"])
-                        if line not in self.known_hits:
-                            self.known_hits.append(line)
-                            print(line, flush=True)
-                        part[idx] = json.dumps({"kind": "skipped", "case": rec.get("case")}).encode()
-                        skipped += 1
-                        if skipped > 200:
-                            raise Undecided("more than 200 records matched known findings")
-                        continue
-                    raise Violation(self, meta, module, r.get("invariant", "?"), rec, r)
-                self.traces += len(part) - skipped
+            cpath = os.path.join(meta["dir"], fn.replace("records", "cases"))
+            caselines = open(cpath, "rb").read().split(b"\n") if os.path.exists(cpath) else []
+            for si in range(0, max(len(lines), 1), shard):
+                jobs.append((lines[si:si + shard], caselines[si:si + shard]))
+
+        def one(job):
+            part, cases = job
+            part = list(part)
+            skipped, hits, st, tr = 0, [], 0, 0
+            while True:
+                d = self.spec_dir(extra_files)
+                with open(os.path.join(d, "records.ndjson"), "wb") as f:
+                    f.write(b"\n".join(part) + (b"\n" if part else b""))
+                r = self.tlc(module, cfg, d, workers=1, timeout=timeout, heap=heap)
+                shutil.rmtree(d, ignore_errors=True)
+                st += r.get("distinct", 0)
+                tr += r.get("generated", 0)
+                if r["ok"]:
+                    if r.get("distinct", 0) < len(part):
+                        raise Undecided("trace spec %s consumed %d of %d records" % (module, r.get("distinct", 0), len(part)))
+                    return ("ok", len(part) - skipped, hits, st, tr)
+                if not r["violation"] or "l" not in r:
+                    raise Undecided("TLC failed on %s:\n%s" % (module, r["out"][-3000:]))
+                idx = r["l"] - 1
+                if idx < 0 or idx >= len(part):
+                    raise Undecided("TLC reported position %d outside the trace" % r["l"])
+                rec = json.loads(part[idx])
+                if idx < len(cases) and cases[idx]:
+                    rec["case"] = json.loads(cases[idx])
+                kf = match_known(self.prop, rec, known)
+                if kf is None:
+                    return ("violation", Violation(self, meta, module, r.get("invariant", "?"), rec, r), hits, st, tr)
+                hits.append("KNOWN-FINDING: property=%s %s" % (self.prop, kf["what"]))
+                part[idx] = json.dumps({"kind": "skipped"}).encode()
+                skipped += 1
+                if skipped > 200:
+                    raise Undecided("more than 200 records matched known findings")
+
+        violation = None
+        with concurrent.futures.ThreadPoolExecutor(max_workers=max(1, min(par, len(jobs)))) as ex:
+            for res in ex.map(one, jobs):
+                kind, val, hits, st, tr = res
+                self.states += st
+                self.transitions += tr
+                for line in hits:
+                    if line not in self.known_hits:
+                        self.known_hits.append(line)
+                        print(line, flush=True)
+                if kind == "violation":
+                    violation = violation or val
+                else:
+                    self.traces += val
+        if violation is not None:
+            raise violation
         self.drivers.append({k: meta[k] for k in ("driver", "evaluations", "distinct_nontrivial", "rule", "exhaustive", "traces", "wall_s")}
-                            | {"trace_spec": module, "extra": meta.get("extra")})
-        self._last_meta = meta
+                            | {"trace_spec": module + "/" + cfg, "extra": meta.get("extra")})
 
     # ---------------------------------------------------------------- evidence
     def evidence(self, level, violations, assumptions, explanation=None):
